@@ -247,8 +247,8 @@ fn styles_from_properties(decls: &[parser::Declaration]) -> (styles_out: Vec<Sty
     for decl in it: decls
         invariant //@w
             it.seq().len() == decls@.len(), forall|i: int| 0 <= i < decls@.len() ==> *(#[trigger] it.seq()[i]) == decls@[i], //@w
-            svs(styles@) =~= expected(decls@, it.index@), //@w
-            overflow_hidden == any_hidden(decls@, it.index@), height_zero == any_zero_height(decls@, it.index@), //@w
+            svs(styles@) =~= expected(decls@, it.index@), //@w @C18 @C19 #declarations_emitted_so_far
+            overflow_hidden == any_hidden(decls@, it.index@), height_zero == any_zero_height(decls@, it.index@), //@w @C18 #zero_height_and_hidden_overflow_seen_so_far
     {
         proof { //@w
             let k = it.index@; //@w
